@@ -1,4 +1,4 @@
-// LIBS: core
+// LIBS: core render
 // Harness for the expression core: executes build programs (the same case
 // files ocaml/driver.ml reads) against libfive built from /repo's working
 // tree and prints one answer line per query in the driver's grammar.
@@ -20,6 +20,8 @@
 #include "libfive/tree/opcode.hpp"
 #include "libfive/tree/archive.hpp"
 #include "libfive/solve/solver.hpp"
+#include "libfive/render/discrete/heightmap.hpp"
+#include "libfive/render/discrete/voxels.hpp"
 #include "libfive/eval/eval_jacobian.hpp"
 #include "libfive/eval/deck.hpp"
 #include "libfive/eval/tape.hpp"
@@ -252,7 +254,7 @@ int main(int argc, char** argv) {
                     pi << "PI " << nslots << ' ' << tape->root() << ' ' << (tape->isTerminal() ? 1 : 0)
                        << ' ' << tape_len(*tape) << ' ' << tape_clauses(*tape);
                     for (size_t k = 0; k < nslots; ++k)
-                        pi << ' ' << hex32(iv.slot(k).lower()) << ' ' << hex32(iv.slot(k).upper());
+                        pi << ' ' << hex32(iv.slot(k).lower()) << ' ' << hex32(iv.slot(k).upper()) << ' ' << (iv.slot(k).isSafe() ? 0 : 1);
                     out(pi.str());
                     auto next = iv.push(tape);
                     out("P root=" + std::to_string(next->root()) + " term=" + (next->isTerminal() ? "1" : "0")
@@ -431,6 +433,86 @@ int main(int argc, char** argv) {
                 }
                 out(std::string("SO residual=") + (same ? "1" : "0") + " recomputed=" + hex32(rr) + " masked=" + (masked_ok ? "1" : "0")
                     + " absent=" + (absent_ok ? "1" : "0") + " gradcalls=" + std::to_string(std::count_if(g_trace.begin(), g_trace.end(), [](const std::string& e) { return e[0] == 'G'; })));
+            }
+            else if (c == "vsplit") {
+                // vsplit lx ly lz ux uy uz rx ry rz nsteps (mask side)* : grid construction and a chain of splits
+                Eigen::Vector3f lo(of_hex32(t[1]), of_hex32(t[2]), of_hex32(t[3])), hi(of_hex32(t[4]), of_hex32(t[5]), of_hex32(t[6]));
+                Eigen::Vector3f res(of_hex32(t[7]), of_hex32(t[8]), of_hex32(t[9]));
+                Voxels vox(lo, hi, res);
+                std::ostringstream gs;
+                gs << "VG " << vox.pts[0].size() << ' ' << vox.pts[1].size() << ' ' << vox.pts[2].size();
+                bool cover = true, mono = true, spacing = true;
+                for (int a = 0; a < 3; ++a) {
+                    if (!(vox.lower(a) <= lo(a) && vox.upper(a) >= hi(a))) cover = false;
+                    for (size_t k = 0; k + 1 < vox.pts[a].size(); ++k) if (!(vox.pts[a][k] < vox.pts[a][k + 1])) mono = false;
+                    for (size_t k = 0; k < vox.pts[a].size(); ++k) if (!(vox.pts[a][k] >= vox.lower(a) && vox.pts[a][k] <= vox.upper(a))) cover = false;
+                    if (res(a) > 0) {
+                        float want = 1.0f / res(a);
+                        float got = (vox.upper(a) - vox.lower(a)) / vox.pts[a].size();
+                        if (std::fabs(got - want) > 1e-4f * want) spacing = false;
+                        // no more voxels than needed to cover the request
+                        if (vox.pts[a].size() > 1 && (vox.pts[a].size() - 1) / res(a) >= (hi(a) - lo(a)) * (1 + 1e-5f) + 1e-6f) spacing = false;
+                    }
+                }
+                gs << " cover=" << cover << " mono=" << mono << " spacing=" << spacing;
+                out(gs.str());
+                int n = std::stoi(t[10]);
+                Voxels::View v = vox.view();
+                for (int k = 0; k < n; ++k) {
+                    int mask = std::stoi(t[11 + 2 * k]), side = std::stoi(t[12 + 2 * k]);
+                    std::pair<Voxels::View, Voxels::View> pr = mask == 7 ? v.split<7>() : mask == 3 ? v.split<3>() : mask == 4 ? v.split<4>()
+                        : mask == 1 ? v.split<1>() : mask == 2 ? v.split<2>() : mask == 5 ? v.split<5>() : v.split<6>();
+                    auto show = [&](const Voxels::View& w) {
+                        std::ostringstream ss;
+                        ss << w.corner.x() << ',' << w.corner.y() << ',' << w.corner.z() << ',' << w.size.x() << ',' << w.size.y() << ',' << w.size.z();
+                        return ss.str(); };
+                    // bounds of each half must separate its voxel centres from the other half's
+                    bool sep = true;
+                    for (int a = 0; a < 3; ++a) {
+                        for (int q = 0; q < 2; ++q) {
+                            const Voxels::View& w = q ? pr.second : pr.first;
+                            for (int m = 0; m < w.size(a); ++m)
+                                if (!(w.pts(a)[m] >= w.lower(a) && w.pts(a)[m] <= w.upper(a))) sep = false;
+                        }
+                    }
+                    out("VS " + show(pr.first) + " " + show(pr.second) + " sep=" + (sep ? "1" : "0"));
+                    v = side ? pr.second : pr.first;
+                    if (v.empty()) break;
+                }
+            }
+            else if (c == "hmap") {
+                // hmap h lx ly lz ux uy uz res  : render with 1, 3 and 8 workers, compare with a brute-force scan
+                Tree tr = H(t[1]);
+                Eigen::Vector3f lo(of_hex32(t[2]), of_hex32(t[3]), of_hex32(t[4])), hi(of_hex32(t[5]), of_hex32(t[6]), of_hex32(t[7]));
+                float res = of_hex32(t[8]);
+                Voxels vox(lo, hi, res);
+                std::atomic_bool abort(false);
+                const Tree topt = tr.optimized();
+                // brute force with the renderer's own evaluator type and the same optimised tree
+                Evaluator be(topt);
+                size_t nx = vox.pts[0].size(), ny = vox.pts[1].size(), nz = vox.pts[2].size();
+                std::vector<float> brute(nx * ny, -std::numeric_limits<float>::infinity());
+                for (size_t i = 0; i < nx; ++i) for (size_t j = 0; j < ny; ++j)
+                    for (size_t k = nz; k-- > 0;) {
+                        float v = be.value({vox.pts[0][i], vox.pts[1][j], vox.pts[2][k]});
+                        std::fesetround(FE_TONEAREST);
+                        if (v < 0) { brute[j * nx + i] = vox.pts[2][k]; break; }
+                    }
+                size_t filled = 0; for (float d : brute) if (std::isfinite(d)) ++filled;
+                std::string res_s = "HM " + std::to_string(nx) + "x" + std::to_string(ny) + "x" + std::to_string(nz) + " filled=" + std::to_string(filled);
+                for (size_t workers : {1, 3, 8}) {
+                    std::vector<Evaluator*> es;
+                    for (size_t w = 0; w < workers; ++w) es.push_back(new Evaluator(topt));
+                    auto hm = Heightmap::render(es, vox, abort);
+                    for (auto e : es) delete e;
+                    size_t bad = 0; std::string first;
+                    for (size_t i = 0; i < nx; ++i) for (size_t j = 0; j < ny; ++j) {
+                        float d = hm->depth(j, i), b = brute[j * nx + i];
+                        if (!(d == b)) { if (!bad) first = " px=" + std::to_string(i) + "," + std::to_string(j) + " got=" + hex32(d) + " want=" + hex32(b); ++bad; }
+                    }
+                    res_s += " w" + std::to_string(workers) + "bad=" + std::to_string(bad) + first;
+                }
+                out(res_s);
             }
             else if (c == "ivcheck") {
                 // ivcheck h lx ly lz ux uy uz exact(0/1) : C02's statement on one expression and box
